@@ -274,6 +274,13 @@ Definition record_answer (n : node) (hbh e2e : Z) : node :=
         (sa_append (g_rsize (n_cfg n)) (n_sent_answers n) origin e2e)
   end.
 
+(* a request that will never be answered leaves the origin table (route_answer failing after it took the waiting
+   entry; a capabilities-exchange request that is ignored) *)
+Definition drop_origin (n : node) (hbh e2e : Z) : node :=
+  set_waiting n (n_app_waiting n) (n_peer_waiting n)
+    (List.filter (fun x => let '(h, e, _) := x in negb ((h =? hbh) && (e =? e2e))) (n_origin_waiting n))
+    (n_sent_answers n).
+
 Definition mem_zz (x : Z * Z) (l : list (Z * Z)) : bool := List.existsb (fun y => (fst x =? fst y) && (snd x =? snd y)) l.
 Definition remove_zz (x : Z * Z) (l : list (Z * Z)) : list (Z * Z) :=
   List.filter (fun y => negb ((fst x =? fst y) && (snd x =? snd y))) l.
@@ -372,9 +379,16 @@ Definition remove_conn (n : node) (cid : nat) (reason : Z) : node :=
                     | None => n1
                     end
                 end in
+      (* the requests of this host that were still waiting for the application's answer will never be answered:
+         their entries in the origin table go with them *)
+      let gone := match List.find (fun e => String.eqb (fst e) (c_host c)) (n_peer_waiting n2) with
+                  | Some e => snd e
+                  | None => []
+                  end in
       let n3 := set_waiting n2 (n_app_waiting n2)
                   (List.filter (fun e => negb (String.eqb (fst e) (c_host c))) (n_peer_waiting n2))
-                  (n_origin_waiting n2) (n_sent_answers n2) in
+                  (List.filter (fun x => let '(h, e, _) := x in negb (mem_zz (h, e) gone)) (n_origin_waiting n2))
+                  (n_sent_answers n2) in
       let n4 := set_tables n3 (remove_nat cid (n_half_ready n3)) (remove_nat cid (n_socket_peers n3)) in
       set_apps n4 (List.map (fun ia => let '(i, a) := ia in
                       if any_peer_ready n4 (app_peers n4 i) then a else set_aready a false)
@@ -420,7 +434,7 @@ Definition recv_cer (n : node) (cid : nat) (m : msg) : node * list output :=
   match get_conn n cid with
   | None => (n, [])
   | Some c0 =>
-  if negb (cstate_eqb (c_state c0) SConnected) then (n, [])     (* only while the CER is awaited *)
+  if negb (cstate_eqb (c_state c0) SConnected) then (drop_origin n (m_hbh m) (m_e2e m), [])  (* only while the CER is awaited *)
   else
   match pres_get (m_origin m) with
   | None => (n, [])      (* cannot happen after validation; AttributeError path handled by the caller *)
@@ -825,8 +839,9 @@ Definition route_answer (n : node) (m : omsg) : option nat * node :=
       let n1 := set_waiting n (n_app_waiting n) (pw_remove (n_peer_waiting n) host (o_hbh m, o_e2e m))
                             (n_origin_waiting n) (n_sent_answers n) in
       match List.find (fun c => String.eqb (c_host c) host) (n_conns n1) with
-      | None => (None, n1)
-      | Some c => if is_ready_state (c_state c) then (Some (c_id c), n1) else (None, n1)
+      | None => (None, drop_origin n1 (o_hbh m) (o_e2e m))
+      | Some c => if is_ready_state (c_state c) then (Some (c_id c), n1)
+                  else (None, drop_origin n1 (o_hbh m) (o_e2e m))
       end
   end.
 
